@@ -1,7 +1,132 @@
-import CTV.Model.ChainCheck
+import CTV.Lemmas.ChainCheck
+/-!
+# C02 — only chains that lead, in submitted order, to a trusted root are admitted
+
+Theorems over `CTV.Model.ChainCheck` (hand model of `ValidateChain`, `verifyAddChain`,
+`IsPrecertificate`, the fork's `Verify` / `buildChains` / `isValid` / `findPotentialParents` /
+`CheckSignatureFrom`), whose comparisons and guards are the **regenerated** `Gen.ChainCheck`
+definitions.  All statements are for every trusted pool, every oracle `sigOK`, every option record
+and every submission; certificates are abstract records (`Cert`), an unparsable DER string is `none`.
+
+Vocabulary (defined in `CTV.Lemmas.ChainCheck`): `Link sigOK a b` — `a` names `b` and
+`CheckSignatureFrom` succeeds; `Linked R p` — `R` between neighbours; `IsInterCA` — basic constraints
+valid and CA; `LeafOK o c` — the configured filters as the property words them.
+-/
 namespace C02
 open CTV.Model.ChainCheck
 
+/-- The five checks of the fork's `Verify` the model leaves out are exactly the ones `ValidateChain`
+switches off in its `x509.VerifyOptions` literal (regenerated), and name chaining stays on. -/
 theorem verify_options_as_modelled : omittedChecksDisabled = true ∧ verifyFlag "DisableNameChecks" = false := by decide
+
+/-- `CheckSignatureFrom` in words: the parent is not a v3 certificate without basic constraints, not a
+certificate whose basic constraints deny CA (unless the child carries the Entrust SPKI), its key usage — if
+present — allows certificate signing, its key algorithm is known, and the signature verifies. -/
+theorem link_iff (sigOK : SigOracle) (a b : Cert) :
+    Link sigOK a b ↔
+      (a.issuer = b.subject ∧
+       (((b.version = 3 ∧ b.bcValid = false) ∨ (b.bcValid = true ∧ b.isCA = false)) → a.entrustSPKI = true) ∧
+       (b.keyUsage = 0 ∨ I64.land b.keyUsage Gen.keyUsageCertSign ≠ 0) ∧
+       b.pkAlgKnown = true ∧ sigOK a b = true) := by
+  unfold Link checkSignatureFrom Gen.csfConstraintFails Gen.csfKeyUsageFails Gen.csfAlgFails
+  cases hb : b.bcValid <;> cases hc : b.isCA <;> cases he : a.entrustSPKI <;> cases hp : b.pkAlgKnown <;>
+    by_cases hv : b.version = 3 <;> by_cases hk : b.keyUsage = 0 <;>
+    by_cases hl : I64.land b.keyUsage Gen.keyUsageCertSign = 0 <;> simp [hv, hk, hl]
+
+example : Link (fun _ _ => true)
+    { (default : Cert) with issuer := 7 }
+    { (default : Cert) with subject := 7, version := 3, bcValid := true, isCA := true, keyUsage := 36, pkAlgKnown := true } :=
+  ⟨rfl, by decide⟩
+
+/-! ## Soundness -/
+
+/-- **admit_sound.** If `ValidateChain` returns a path `p` then: every submitted string parsed
+(`raw = (l :: rest).map some`); the leaf passes every configured filter; `p` starts with the submitted
+leaf itself; `p` is the submission, certificate for certificate in the submitted order, followed by at
+most one more certificate; every link of `p` has name equality, a good signature and the CA conditions of
+`CheckSignatureFrom`; every certificate strictly inside `p` is a submitted one and an intermediate CA
+(`isValid`); the last certificate of `p` is (by `Raw`) a member of the trusted pool; no certificate
+occurs twice.  For all pools, oracles and options. -/
+theorem admit_sound (roots : List Cert) (sigOK : SigOracle) (o : Opts) (raw : List (Option Cert)) (p : List Cert)
+    (h : validateChain roots sigOK o raw = .ok p) :
+    ∃ l rest, raw = (l :: rest).map some ∧
+      LeafOK o l ∧
+      p.head? = some l ∧
+      (p.length = raw.length ∨ p.length = raw.length + 1) ∧
+      (p.take raw.length).map (·.id) = (l :: rest).map (·.id) ∧
+      Linked (Link sigOK) p ∧
+      (∀ x ∈ p.tail.dropLast, IsInterCA x ∧ x ∈ rest) ∧
+      (∃ z r, p.getLast? = some z ∧ r ∈ roots ∧ z.id = r.id ∧ (z = r ∨ z = l)) ∧
+      (p.map (·.id)).Nodup := by
+  unfold validateChain at h
+  split at h
+  · simp at h
+  · simp at h
+  rename_i l rest hparse
+  have hraw := parseAll_some _ _ hparse
+  split at h
+  · simp at h
+  rename_i hf
+  have hleaf := (leafFilters_iff o l).1 hf
+  split at h
+  · simp at h
+  rename_i chains hv
+  split at h
+  · simp at h
+  split at h
+  · rename_i q hq
+    simp only [Except.ok.injEq] at h
+    subst h
+    have hmem := List.mem_of_find?_eq_some hq
+    have heq : chainsEquivalent (l :: rest) q = true := by simpa using List.find?_some hq
+    have hlen : raw.length = (l :: rest).length := by rw [hraw]; simp
+    refine ⟨l, rest, hraw, hleaf, ?_⟩
+    rcases verify_good hv with ⟨hc, hpc⟩ | hg
+    · -- the leaf is itself in the trusted pool: Verify answers [[l]]
+      subst hc
+      have : q = [l] := by simpa using hmem
+      subst this
+      have hs := chainsEquivalent_spec (by simp) heq
+      obtain ⟨r, hr, hid⟩ := poolContains_iff.1 hpc
+      refine ⟨rfl, ?_, ?_, trivial, by simp, ⟨l, r, rfl, hr, hid.symm, Or.inr rfl⟩, by simp⟩
+      · rw [hlen]; exact hs.1
+      · rw [hlen]; exact hs.2
+    · have g := hg q hmem
+      have hs := chainsEquivalent_spec (by have := g.len.2; simp [fuel, Gen.maxChainSignatureChecks] at this; omega) heq
+      obtain ⟨r, hr1, hr2⟩ := g.last
+      refine ⟨g.head, ?_, ?_, g.linked, ?_, ⟨r, r, hr1, hr2, rfl, Or.inl rfl⟩, g.nodup⟩
+      · rw [hlen]; exact hs.1
+      · rw [hlen]; exact hs.2
+      · intro x hx
+        exact ⟨(g.inner x hx).2, mem_mkPool (g.inner x hx).1⟩
+  · simp at h
+
+/-- **admit_sound, order clause with real equality.** When records are determined by their bytes
+(`Coherent`), the returned path *is* the submitted list followed by at most one certificate, and its last
+certificate is a member of the trusted pool. -/
+theorem admit_sound_order (roots : List Cert) (sigOK : SigOracle) (o : Opts) (cs : List Cert) (p : List Cert)
+    (hco : Coherent (cs ++ roots)) (h : validateChain roots sigOK o (cs.map some) = .ok p) :
+    p.take cs.length = cs ∧ (p.length = cs.length ∨ p.length = cs.length + 1) ∧ ∃ r ∈ roots, p.getLast? = some r := by
+  obtain ⟨l, rest, hraw, _, hhead, hlen, htake, _, hinner, ⟨z, r, hz, hr, hid, hzr⟩, _⟩ := admit_sound roots sigOK o _ p h
+  have hcs : cs = l :: rest := by
+    have := congrArg (List.filterMap id) hraw
+    simpa [List.filterMap_map] using this
+  subst hcs
+  simp only [List.length_map] at hlen htake
+  have hzU : z ∈ (l :: rest) ++ roots := by
+    rcases hzr with e | e
+    · subst e; exact List.mem_append_right _ hr
+    · subst e; simp
+  have hp : ∀ x ∈ p, x ∈ (l :: rest) ++ roots := by
+    intro x hx
+    rcases mem_cases_head_inner_last p x hx with e | e | e
+    · rw [hhead] at e; cases e; simp
+    · have := (hinner x e).2
+      simp [this]
+    · rw [hz] at e; cases e; exact hzU
+  refine ⟨?_, hlen, r, hr, ?_⟩
+  · exact map_id_eq_of_coherent hco _ _ (fun x hx => hp x (List.mem_of_mem_take hx)) (fun x hx => List.mem_append_left _ hx) htake
+  · have : z = r := hco z hzU r (List.mem_append_right _ hr) hid
+    rw [hz, this]
 
 end C02
